@@ -1061,7 +1061,7 @@ fn badutf8_cases(ctx: &mut Ctx, ps: &mut Passes) {
             cat(&[b"end", q, b"start"]),
             cat(&[b"start\xef\xbf\xbdend"]),
             cat(&[b"start", q, b"ok", q, b"end"]),
-            cat(&[b"start\xc3\xa4", q, b"\xe2\x82\xacend"]),
+            cat(&[b"start\xe2\x86\x92", q, b"\xe2\x82\xacend"]),
             cat(&[b"start", q, b"\t", q, b"end ok"]),
         ];
         for last_terminated in [true, false] {
